@@ -21,6 +21,7 @@ uint64_t vf_native_nondet(int w) {
   if ((r >> 60) < 13) r = (r >> 8) % 9;   /* bias to small values so that assumptions are often satisfied */
   return r;
 }
+void vf_native_obs(uint32_t v) { printf("OBS %u\n", v); }
 static int reached[64]; static int nreached;
 void vf_native_reach(int id) { for (int i = 0; i < nreached; ++i) if (reached[i] == id) return; if (nreached < 64) reached[nreached++] = id; }
 static void dump_reach(void) { printf("REACH"); for (int i = 0; i < nreached; ++i) printf(" %d", reached[i]); printf("\n"); }
@@ -34,6 +35,7 @@ uint64_t vf_nondet_u64(void) { return vf_native_nondet(64); }
 void vf_assume(uint8_t c) { if (!c) vf_native_assume_fail(); }
 void vf_assert(uint8_t c, unsigned id) { if (!c) vf_native_assert_fail((int)id); }
 void vf_reach(unsigned id) { vf_native_reach((int)id); }
+void vf_obs(uint32_t v) { vf_native_obs(v); }
 uint8_t *vf_malloc(uint64_t n) { return malloc(n ? n : 1); }
 void vf_free_(uint8_t *p) { free(p); }
 uint8_t *vf_realloc_(uint8_t *p, uint64_t n) { return realloc(p, n ? n : 1); }
